@@ -59,6 +59,7 @@ package main
 import (
 	"fmt"
 	"go/ast"
+	"go/printer"
 	"go/token"
 	"os"
 	"path/filepath"
@@ -268,6 +269,12 @@ func initTables() {
 		"Result", "result", tStruct("GReconcileResult"))
 	defStruct("GReconcileResult", "Requeue", "requeue", tBool(), "RequeueAfter", "requeueAfter", tDur())
 	defStruct("Setting", "Name", "name", tStr(), "Namespace", "ns", tStr(), "CreationTimestamp", "creation", tTime())
+	// group Setting (searchPossibleConflict): the selector of a setting (`Spec` is transparent), the two lists
+	structs["Setting"].order = append(structs["Setting"].order, "NodeSelector")
+	structs["Setting"].fields["NodeSelector"] = field{"nodeSelector", tStruct("LabelSelector")}
+	defStruct("GSettingList", "Items", "items", tList(tStruct("Setting")))
+	defStruct("GNodeList", "Items", "items", tList(tStruct("Node")))
+	defStruct("GSelector", "setting", "setting", tStruct("Setting")) // what LabelSelectorAsSelector returns (opaque to Go code)
 	// groups Deployment / Unknown (ManageDeployment, ManageUnknown): the remaining fields of Parameters / Result they touch,
 	// and limits.Parameters (EdsModel/Generated/Limits.lean, generated by genLimits from limits.go)
 	defaultedField("GParams", "PodToCleanUp", "podToCleanUp", tList(tPtr(tStruct("GPod"))))
@@ -317,6 +324,8 @@ func initTables() {
 		"Parameters":                                        tStruct("GParams"),
 		"Result":                                            tStruct("GResult"),
 		"ExtendedDaemonsetSetting":                          tStruct("Setting"),
+		"ExtendedDaemonsetSettingList":                      tStruct("GSettingList"),
+		"NodeList":                                          tStruct("GNodeList"),
 		"NodeItem":                                          tStruct("NodeItem"),
 		"Node":                                              tStruct("Node"),
 	}
@@ -693,7 +702,7 @@ func (t *tr) sel(v val, name string, n ast.Node) val {
 		if name == "ObjectMeta" {
 			return v // the embedded metadata: its fields are the object's own
 		}
-		if name == "Spec" && v.ty.N == "ERS" {
+		if name == "Spec" && (v.ty.N == "ERS" || v.ty.N == "Setting") {
 			return v // the model's replica set is flat: `rs.Spec.TemplateGeneration` is `rs.templateGeneration`
 		}
 	}
@@ -1253,6 +1262,9 @@ func (t *tr) call(x *ast.CallExpr) val {
 				return val{binds: bs, term: "(decide (" + recv.term + " > " + vs[0].term + "))", ty: tBool()}
 			case m == "DeepCopy":
 				return val{binds: bs, term: recv.term, ty: recv.ty}
+			case m == "Matches" && recv.ty.K == "struct" && recv.ty.N == "GSelector" && len(vs) == 1 && vs[0].ty.K == "smap":
+				// labels.Selector.Matches: library code mapped to the model (see metav1.LabelSelectorAsSelector)
+				return val{binds: bs, term: "(Go.selectorMatches " + recv.term + " " + vs[0].term + ")", ty: tBool()}
 			case m == "GetAnnotations":
 				r := t.sel(val{binds: bs, term: recv.term, ty: recv.ty}, "Annotations", x)
 				return r
@@ -1321,6 +1333,41 @@ func (t *tr) call(x *ast.CallExpr) val {
 	}
 	if name == "fmt.Sprintf" {
 		return t.sprintf(x)
+	}
+	if name == "fmt.Errorf" {
+		// a fresh non-nil error carrying its text (`%s` verbs only, like Sprintf)
+		v := t.sprintf(x)
+		return val{binds: v.binds, term: "(some " + v.term + ")", ty: tPtr(tStr())}
+	}
+	if name == "labels.Set" && len(x.Args) == 1 {
+		return t.ex(x.Args[0]) // the conversion map[string]string -> labels.Set
+	}
+	if name == "metav1.LabelSelectorAsSelector" && len(x.Args) == 1 {
+		// library code, mapped to the model: `metav1.LabelSelectorAsSelector(&s.Spec.NodeSelector)` of a setting `s` is
+		// `Go.labelSelectorAsSelector s` (EdsModel/GoPreludeSetting.lean) — the selector of the setting and the error the model
+		// keeps as `Setting.badSelector` (whether the conversion of that setting's selector fails is a field of the SETTING in
+		// the model, so the argument must syntactically be the node selector of a setting); `selector.Matches(labels)` is
+		// `Go.selectorMatches` (the `some` case of the model's `settingMatches`)
+		u, ok := x.Args[0].(*ast.UnaryExpr)
+		var inner ast.Expr
+		if ok && u.Op == token.AND {
+			if s1, ok := u.X.(*ast.SelectorExpr); ok && s1.Sel.Name == "NodeSelector" {
+				if s2, ok := s1.X.(*ast.SelectorExpr); ok && s2.Sel.Name == "Spec" {
+					inner = s2.X
+				}
+			}
+		}
+		if inner == nil {
+			dieT("gotolean: LabelSelectorAsSelector of something other than &<setting>.Spec.NodeSelector at %s", pos(x))
+		}
+		v := t.ex(inner)
+		if v.ty.K == "ptr" {
+			v = t.deref(v, x)
+		}
+		if v.ty.K != "struct" || v.ty.N != "Setting" {
+			dieT("gotolean: LabelSelectorAsSelector of something other than &<setting>.Spec.NodeSelector at %s", pos(x))
+		}
+		return val{binds: v.binds, term: "(Go.labelSelectorAsSelector " + v.term + ")", ty: Ty{K: "tuple"}}
 	}
 	if name == "metav1.NewTime" {
 		return t.ex(x.Args[0])
@@ -1558,7 +1605,7 @@ func (t *tr) assigned(list []ast.Stmt) []string {
 				}
 			case *ast.ExprStmt:
 				if c, ok := s.X.(*ast.CallExpr); ok && len(c.Args) > 0 {
-					if isDeleteCall(c) || (calleeName(c) == "sort.SliceStable" && len(c.Args) == 2) {
+					if isDeleteCall(c) || isSortCall(c) {
 						if r := root(c.Args[0]); r != "" {
 							if _, ok := t.lookup(r); ok {
 								set[r] = true
@@ -1807,6 +1854,12 @@ func (t *tr) assignPath(lhs ast.Expr, v string, rest func() string) string {
 	case *ast.IndexExpr:
 		// l[i] = v: rebuild the list (`none` = index out of range), then assign it to l
 		l, i := t.ex(x.X), t.ex(x.Index)
+		if l.ty.K == "smap" && i.ty.K == "str" {
+			// m[k] = v on a map[string]string: the model's SMap.set (a nil map would panic: only locals initialised by a
+			// literal reach this in the translated code)
+			bs := append(append([]bind{}, l.binds...), i.binds...)
+			return wrap(bs, t.assignPath(x.X, "(SMap.set "+l.term+" "+i.term+" "+v+")", rest))
+		}
 		if l.ty.K != "list" {
 			dieT("gotolean: indexed assignment to a non-slice at %s", pos(lhs))
 		}
@@ -1950,6 +2003,9 @@ func (t *tr) block(list []ast.Stmt, fall func() string) string {
 			if calleeName(c) == "sort.SliceStable" && len(c.Args) == 2 {
 				return t.sortStable(c, rest)
 			}
+			if calleeName(c) == "sort.Sort" && len(c.Args) == 1 {
+				return t.sortSort(c, rest)
+			}
 			if pkg, _ := splitQual(calleeName(c)); pkg != "" && t.cur.imports[pkg] == "pkg/controller/metrics" {
 				// a metric update: no effect on the translated state; the arguments are still evaluated
 				if _, isLocal := t.lookup(pkg); !isLocal {
@@ -2019,7 +2075,7 @@ func (t *tr) assignTargets(n ast.Node) []ast.Expr {
 				return true
 			}
 			switch {
-			case isDeleteCall(c), calleeName(c) == "sort.SliceStable" && len(c.Args) == 2:
+			case isDeleteCall(c), isSortCall(c):
 				out = append(out, c.Args[0])
 			case t.isMutatorCall(c):
 				a := c.Args[0]
@@ -2248,7 +2304,7 @@ func (t *tr) apiStep(s ast.Stmt, rest func() string) string {
 				return false
 			}
 			switch {
-			case isDeleteCall(y), calleeName(y) == "sort.SliceStable" && len(y.Args) == 2:
+			case isDeleteCall(y), isSortCall(y):
 				addTarget(y.Args[0])
 			case len(y.Args) > 0 && t.isMutatorCall(y):
 				a := y.Args[0]
@@ -2398,6 +2454,128 @@ func (t *tr) sortStable(c *ast.CallExpr, rest func() string) string {
 	less := "(fun " + a + " " + b + " =>\n" + wrap(v.binds, "some "+v.term) + ")"
 	r := t.tmp("l")
 	return "Option.bind (Go.stableSortBy " + less + " " + f.lean + ") fun " + r + " =>\n" + t.assignPath(c.Args[0], r, rest)
+}
+
+// isSortCall: `sort.SliceStable(xs, less)` or `sort.Sort(xs)` / `sort.Sort(T(xs))` — a statement that assigns its first argument
+func isSortCall(c *ast.CallExpr) bool {
+	switch calleeName(c) {
+	case "sort.SliceStable":
+		return len(c.Args) == 2
+	case "sort.Sort":
+		if len(c.Args) == 1 {
+			// the slice sorted is what assigned / root see: strip the conversion `T(xs)`
+			if cv, ok := c.Args[0].(*ast.CallExpr); ok && len(cv.Args) == 1 {
+				if _, isId := cv.Fun.(*ast.Ident); isId {
+					c.Args[0] = cv.Args[0]
+					sortConv[c] = cv.Fun.(*ast.Ident).Name
+				}
+			}
+			return true
+		}
+	}
+	return false
+}
+
+// sort.Sort(T(xs)) calls whose conversion isSortCall stripped: the call -> T
+var sortConv = map[*ast.CallExpr]string{}
+
+// sortSort: `sort.Sort(xs)` (xs a local declared `var xs T`) or `sort.Sort(T(xs))`, T a named slice type of the translated
+// files whose method `Less(i, j int) bool` is translated (in this group or one it depends on).  Library code, mapped to the
+// same model function as sort.SliceStable: `xs = Go.stableSortBy less xs` with `less a b := T.Less([a, b], 0, 1)` — the
+// translated method applied to the two-element slice of the elements compared (`Less(i, j)` is assumed to read its receiver
+// only at i and j: the contract of sort.Interface together with Swap, which is the plain element swap here — Len / Swap are
+// checked to be the canonical ones).  sort.Sort is NOT stable: the mapping says what it returns only when `less` leaves no
+// ties between different elements of the slice (then every sorting algorithm returns the same slice); the bridges carry that
+// hypothesis.
+func (t *tr) sortSort(c *ast.CallExpr, rest func() string) string {
+	isSortCall(c)
+	tyName := sortConv[c]
+	sl, ok := c.Args[0].(*ast.Ident)
+	if !ok {
+		dieT("gotolean: unsupported sort.Sort at %s", pos(c))
+	}
+	f, isLocal := t.lookup(sl.Name)
+	if !isLocal || f.ty.K != "list" {
+		dieT("gotolean: sort.Sort of something other than a local slice at %s", pos(c))
+	}
+	if tyName == "" {
+		tyName = declaredTypeName(t.cur.decl, sl.Name)
+	}
+	if tyName == "" {
+		dieT("gotolean: sort.Sort of a slice whose named type is not evident at %s", pos(c))
+	}
+	var less *fnInfo
+	for _, fi := range t.fns {
+		if fi.spec.recv == tyName && fi.spec.goName == "Less" && filepath.Dir(fi.spec.file) == filepath.Dir(t.cur.spec.file) {
+			less = fi
+		}
+	}
+	if less == nil {
+		dieT("gotolean: %s.Less is not translated (sort.Sort at %s)", tyName, pos(c))
+	}
+	if less.needsNil || less.nowN != 0 || len(less.apiTys) != 0 || len(less.params) != 3 || len(less.results) != 1 || less.results[0].K != "bool" {
+		dieT("gotolean: unsupported %s.Less (sort.Sort at %s)", tyName, pos(c))
+	}
+	checkLenSwap(filepath.Join(t.repo, less.spec.file), tyName)
+	a, b := t.tmp("a"), t.tmp("b")
+	lessT := "(fun " + a + " " + b + " => " + less.spec.leanName + " [" + a + ", " + b + "] 0 1)"
+	r := t.tmp("l")
+	return "Option.bind (Go.stableSortBy " + lessT + " " + f.lean + ") fun " + r + " =>\n" + t.assignPath(c.Args[0], r, rest)
+}
+
+// declaredTypeName: the named type T of `var x T` in the body of a function ("" if there is none)
+func declaredTypeName(fd *ast.FuncDecl, name string) string {
+	out := ""
+	ast.Inspect(fd.Body, func(n ast.Node) bool {
+		if ds, ok := n.(*ast.DeclStmt); ok {
+			if gd, ok := ds.Decl.(*ast.GenDecl); ok && gd.Tok == token.VAR {
+				for _, sp := range gd.Specs {
+					if vs, ok := sp.(*ast.ValueSpec); ok && vs.Type != nil {
+						if id, ok := vs.Type.(*ast.Ident); ok {
+							for _, n := range vs.Names {
+								if n.Name == name {
+									out = id.Name
+								}
+							}
+						}
+					}
+				}
+			}
+		}
+		return true
+	})
+	return out
+}
+
+// checkLenSwap: the methods Len and Swap of the named slice type are `return len(o)` and `o[i], o[j] = o[j], o[i]`
+func checkLenSwap(file, tyName string) {
+	f := parse(file)
+	okLen, okSwap := false, false
+	for _, d := range f.Decls {
+		fd, ok := d.(*ast.FuncDecl)
+		if !ok || fd.Recv == nil || len(fd.Recv.List) != 1 || len(fd.Recv.List[0].Names) != 1 || len(fd.Body.List) != 1 {
+			continue
+		}
+		if id, ok := fd.Recv.List[0].Type.(*ast.Ident); !ok || id.Name != tyName {
+			continue
+		}
+		o := fd.Recv.List[0].Names[0].Name
+		var sb strings.Builder
+		printer.Fprint(&sb, fset, fd.Body.List[0])
+		switch fd.Name.Name {
+		case "Len":
+			okLen = sb.String() == "return len("+o+")"
+		case "Swap":
+			ps := fd.Type.Params.List
+			if len(ps) == 1 && len(ps[0].Names) == 2 {
+				i, j := ps[0].Names[0].Name, ps[0].Names[1].Name
+				okSwap = sb.String() == fmt.Sprintf("%s[%s], %s[%s] = %s[%s], %s[%s]", o, i, o, j, o, j, o, i)
+			}
+		}
+	}
+	if !okLen || !okSwap {
+		dieT("gotolean: %s.Len / Swap are not the canonical slice methods (%s)", tyName, file)
+	}
 }
 
 // voidCallee: the statement `f(a1, …, an)` where f has no Go result and assigns through pointer parameters other than
@@ -2949,6 +3127,8 @@ func (t *tr) assign(s *ast.AssignStmt, rest func() string) string {
 			tys = []Ty{tInt(), tPtr(tStr())}
 		} else if calleeName(c) == "limits.CalculatePodToCreateAndDelete" {
 			tys = []Ty{tInt(), tInt()}
+		} else if calleeName(c) == "metav1.LabelSelectorAsSelector" {
+			tys = []Ty{tStruct("GSelector"), tPtr(tStr())}
 		} else {
 			dieT("gotolean: unknown result types at %s", pos(s))
 		}
@@ -3781,6 +3961,9 @@ var decisionFns = []fnSpec{
 	{group: "Strategy", file: "controllers/extendeddaemonsetreplicaset/strategy/canary.go", goName: "ensureCanaryPodLabels", leanName: "ensureCanaryPodLabels", opaque: true},
 	{group: "Strategy", file: "controllers/extendeddaemonsetreplicaset/strategy/canary.go", goName: "ManageCanaryDeployment", leanName: "manageCanaryDeployment"},
 	{group: "Strategy", file: "controllers/extendeddaemonsetreplicaset/controller.go", recv: "Reconciler", goName: "applyStrategy", leanName: "applyStrategy"},
+	// group Setting: the conflict search of the ExtendedDaemonsetSetting controller (sort.Sort with the translated Less of group
+	// Status, the label-selector conversion and match mapped to the model's selector functions, nodes x settings)
+	{group: "Setting", file: "controllers/extendeddaemonsetsetting/controller.go", goName: "searchPossibleConflict", leanName: "searchPossibleConflict"},
 }
 
 const (
@@ -3789,17 +3972,19 @@ const (
 	podFile     = "pkg/controller/utils/pod/pod.go"
 )
 
-var decisionGroups = []string{"Canary", "Cleanup", "Defaults", "SlowStart", "Conds", "Status", "PodCompare", "CanaryStatus", "Rolling", "Unknown", "Deployment", "Strategy"}
+var decisionGroups = []string{"Canary", "Cleanup", "Defaults", "SlowStart", "Conds", "Status", "PodCompare", "CanaryStatus", "Rolling", "Unknown", "Deployment", "Strategy", "Setting"}
 
 // groups whose functions a group calls: their generated files are imported, and their functions are
 // translated again here only for their signatures (a failure there fails this group too)
 var groupDeps = map[string][]string{"Status": {"Canary", "Conds"}, "PodCompare": {"Canary", "Conds", "Status"},
 	"CanaryStatus": {"Canary", "Conds", "Status", "PodCompare"}, "Rolling": {"Canary", "Conds", "Status", "PodCompare"},
 	"Unknown": {"Canary", "Conds", "Status", "PodCompare"}, "Deployment": {"Canary", "SlowStart", "Conds", "Status", "PodCompare"},
-	"Strategy": {"Canary", "SlowStart", "Conds", "Status", "PodCompare", "CanaryStatus", "Unknown", "Deployment"}}
+	"Strategy": {"Canary", "SlowStart", "Conds", "Status", "PodCompare", "CanaryStatus", "Unknown", "Deployment"},
+	"Setting":  {"Canary", "Conds", "Status"}}
 
 // other generated files a group's file imports (Limits.lean: limits.CalculatePodToCreateAndDelete, translated by genLimits)
-var groupImports = map[string][]string{"Deployment": {"EdsModel.Generated.Limits"}, "Strategy": {"EdsModel.Generated.Limits"}}
+var groupImports = map[string][]string{"Deployment": {"EdsModel.Generated.Limits"}, "Strategy": {"EdsModel.Generated.Limits"},
+	"Setting": {"EdsModel.GoPreludeSetting"}}
 
 // genDecisions returns, per group, the content of EdsModel/Generated/Dec<group>.lean.  A group
 // the translator cannot express yields a file that does not compile (and says why), so that only
